@@ -526,6 +526,185 @@ func shapeFamily(maxChain, maxFan, maxLayers int) *core.Family {
 	}
 }
 
+// huge hierarchies -------------------------------------------------------------------
+//
+// The walks keep a work list and a visited set; a budget, a fixed table or a recursion would
+// end somewhere between a few hundred and a few thousand ancestors. Each shape is built at
+// sizes around the powers of two up to 2^13 (thorough 2^16); reachability comes from a plain
+// breadth-first search over the same edges.
+
+type hugeShape struct {
+	desc  string
+	n     int
+	adj   [][]int
+	pairs [][2]int // (source, target) pairs to ask about; target -1 = never present
+}
+
+func hugeShapes(tier string) []hugeShape {
+	sizes := []int{255, 256, 257, 1023, 1024, 1025, 4095, 4096, 4097, 4098, 4099, 5000, 8191, 8192, 8193}
+	if tier == "thorough" {
+		sizes = append(sizes, 16385, 32769, 65537, 100000)
+	}
+	var out []hugeShape
+	for _, n := range sizes {
+		// chain 0 -> 1 -> ... -> n-1
+		g := hugeShape{desc: fmt.Sprintf("chain of %d nodes", n), n: n, adj: make([][]int, n)}
+		for i := 0; i+1 < n; i++ {
+			g.adj[i] = []int{i + 1}
+		}
+		g.pairs = [][2]int{{0, n - 1}, {0, n - 2}, {1, n - 1}, {0, n / 2}, {n / 2, n - 1}, {n - 1, 0}, {0, -1}, {n - 2, n - 1}}
+		out = append(out, g)
+		// the same chain closed into a cycle
+		c := hugeShape{desc: fmt.Sprintf("cycle of %d nodes", n), n: n, adj: make([][]int, n)}
+		for i := 0; i < n; i++ {
+			c.adj[i] = []int{(i + 1) % n}
+		}
+		c.pairs = [][2]int{{0, n - 1}, {1, 0}, {n - 1, n - 2}, {0, -1}}
+		out = append(out, c)
+		// fan: node 0 has n-2 parents, each of which has the single grandparent n-1
+		f := hugeShape{desc: fmt.Sprintf("fan of %d parents under one grandparent", n-2), n: n, adj: make([][]int, n)}
+		for i := 1; i < n-1; i++ {
+			f.adj[0] = append(f.adj[0], i)
+			f.adj[i] = []int{n - 1}
+		}
+		f.pairs = [][2]int{{0, n - 1}, {0, n - 2}, {1, n - 1}, {n - 1, 0}, {0, -1}}
+		out = append(out, f)
+		// fan whose parents each have a parent of their own; only the last of those reaches the target
+		k := (n - 2) / 2
+		w := hugeShape{desc: fmt.Sprintf("fan of %d parents, each with its own parent, one of which reaches the target", k), n: 2*k + 2, adj: make([][]int, 2*k+2)}
+		for i := 0; i < k; i++ {
+			w.adj[0] = append(w.adj[0], 1+i)
+			w.adj[1+i] = []int{1 + k + i}
+		}
+		w.adj[2*k] = []int{2*k + 1}
+		w.pairs = [][2]int{{0, 2*k + 1}, {0, 2 * k}, {0, -1}, {1, 2*k + 1}}
+		out = append(out, w)
+		// ladder: two chains side by side with rungs, a wide frontier at every depth
+		l := hugeShape{desc: fmt.Sprintf("ladder of %d rungs", n/2), n: 2 * (n / 2), adj: make([][]int, 2*(n/2))}
+		for i := 0; i+1 < n/2; i++ {
+			l.adj[2*i] = []int{2*i + 2, 2*i + 3}
+			l.adj[2*i+1] = []int{2*i + 2, 2*i + 3}
+		}
+		l.pairs = [][2]int{{0, 2*(n/2) - 1}, {1, 2*(n/2) - 2}, {0, -1}, {2*(n/2) - 1, 0}}
+		out = append(out, l)
+	}
+	return out
+}
+
+func (g *hugeShape) reachFrom(a int) []bool {
+	seen := make([]bool, g.n)
+	seen[a] = true
+	todo := []int{a}
+	for len(todo) > 0 {
+		x := todo[0]
+		todo = todo[1:]
+		for _, y := range g.adj[x] {
+			if !seen[y] {
+				seen[y] = true
+				todo = append(todo, y)
+			}
+		}
+	}
+	return seen
+}
+
+func hugeFamily(tier string) *core.Family {
+	sh := hugeShapes(tier)
+	return &core.Family{
+		Name: "huge-hierarchies",
+		Desc: fmt.Sprintf("%d graphs: chains, cycles, fans, fans with private grandparents and ladders of 255 ... %d nodes; 4-8 (source, target) pairs each incl. a never-present target, on Eval in / in-set / is-in, Authorize scope in, in-set and PartialPolicy scope; oracle = breadth-first search", len(sh), sh[len(sh)-1].n),
+		N:    int64(len(sh)),
+		Run: func(t *core.T, i int64) {
+			g := sh[i]
+			em := types.EntityMap{}
+			edges := 0
+			for j := 0; j < g.n; j++ {
+				var ps []types.EntityUID
+				for _, k := range g.adj[j] {
+					ps = append(ps, shapeUID(k))
+				}
+				edges += len(ps)
+				em[shapeUID(j)] = types.Entity{UID: shapeUID(j), Parents: types.NewEntityUIDSet(ps...)}
+			}
+			getter := &countingGetter{m: em, limit: 1000 + 50*(g.n+edges)}
+			guard := func(sig string, in func() string, f func()) {
+				getter.calls = 0
+				defer func() {
+					if x := recover(); x != nil {
+						if _, ok := x.(runaway); ok {
+							t.Fail("non-termination:"+sig, in(), "terminates", fmt.Sprintf("more than %d EntityGetter.Get calls in one evaluation", getter.limit))
+							return
+						}
+						panic(x)
+					}
+				}()
+				f()
+			}
+			for _, pr := range g.pairs {
+				a, b := pr[0], pr[1]
+				ua, ub, want := shapeUID(a), never, false
+				if b >= 0 {
+					ub = shapeUID(b)
+					want = g.reachFrom(a)[b]
+				}
+				env := eval.Env{Entities: getter, Principal: ua, Action: ua, Resource: ua, Context: types.Record{}}
+				req := cedar.Request{Principal: ua, Action: ua, Resource: ua}
+				in := func() string { return fmt.Sprintf("%s: %s in %s", g.desc, ua, ub) }
+				guard("eval-in", in, func() {
+					v, err := eval.Eval(xast.Value(ua).In(xast.Value(ub)).AsIsNode(), env)
+					if err != nil || v != types.Boolean(want) {
+						t.Fail("eval-in:wrong", in(), fmt.Sprint(want), fmt.Sprintf("%v, %v", v, err))
+					}
+				})
+				guard("eval-in-set", in, func() {
+					v, err := eval.Eval(xast.Value(ua).In(xast.Value(types.NewSet(never, ub))).AsIsNode(), env)
+					if err != nil || v != types.Boolean(want) {
+						t.Fail("eval-in-set:wrong", in(), fmt.Sprint(want), fmt.Sprintf("%v, %v", v, err))
+					}
+				})
+				wantT := want && ua.Type == "A"
+				guard("eval-is-in", in, func() {
+					v, err := eval.Eval(xast.Value(ua).IsIn("A", xast.Value(ub)).AsIsNode(), env)
+					if err != nil || v != types.Boolean(wantT) {
+						t.Fail("eval-is-in:wrong", in(), fmt.Sprint(wantT), fmt.Sprintf("%v, %v", v, err))
+					}
+				})
+				pa := xast.Permit().PrincipalIn(ub)
+				guard("authorize-principal-in", in, func() {
+					dec, diag := cedar.Authorize(one(pa), getter, req)
+					if bool(dec) != want || len(diag.Errors) != 0 {
+						t.Fail("authorize-principal-in:wrong", in(), fmt.Sprint(want), fmt.Sprintf("%v %v", dec, diag.Errors))
+					}
+				})
+				ps := xast.Permit().ActionInSet(never, ub)
+				guard("authorize-action-in-set", in, func() {
+					dec, diag := cedar.Authorize(one(ps), getter, req)
+					if bool(dec) != want || len(diag.Errors) != 0 {
+						t.Fail("authorize-action-in-set:wrong", in(), fmt.Sprint(want), fmt.Sprintf("%v %v", dec, diag.Errors))
+					}
+				})
+				pr2 := xast.Permit().ResourceIsIn("A", ub)
+				guard("authorize-resource-is-in", in, func() {
+					dec, diag := cedar.Authorize(one(pr2), getter, req)
+					if bool(dec) != wantT || len(diag.Errors) != 0 {
+						t.Fail("authorize-resource-is-in:wrong", in(), fmt.Sprint(wantT), fmt.Sprintf("%v %v", dec, diag.Errors))
+					}
+				})
+				guard("partial-principal-in", in, func() {
+					_, keep := eval.PartialPolicy(env, pa)
+					if keep != want {
+						t.Fail("partial-principal-in:wrong", in(), fmt.Sprint(want), fmt.Sprint(keep))
+					}
+				})
+				t.AddTrans(7)
+			}
+			t.Nontrivial()
+			t.AddStates(1)
+			t.Sample(g.desc)
+		},
+	}
+}
+
 func Check() *core.Check {
 	return &core.Check{
 		ID:        "C03",
@@ -538,9 +717,9 @@ func Check() *core.Check {
 			fams := []*core.Family{family(1), family(2), family(3)}
 			f4 := family(4)
 			if tier == "thorough" {
-				return append(fams, f4, shapeFamily(24, 80, 8))
+				return append(fams, f4, shapeFamily(24, 80, 8), hugeFamily(tier))
 			}
-			return append(fams, f4, shapeFamily(12, 40, 6))
+			return append(fams, f4, shapeFamily(12, 40, 6), hugeFamily(tier))
 		},
 	}
 }
